@@ -1276,6 +1276,11 @@ class ProcessPoolExecutor(Executor):
             self._executor_manager_thread_wakeup.wakeup()
 
             self._ensure_executor_running()
+            # Wake up the queue management thread again once the workers are
+            # (re)spawned and registered: it waits on a snapshot of the worker
+            # sentinels and would not notice the death of a worker that was
+            # registered after that snapshot was taken.
+            self._executor_manager_thread_wakeup.wakeup()
             return f
 
     submit.__doc__ = Executor.submit.__doc__
